@@ -312,8 +312,8 @@ void PSV_reset_energy_deposition(PhysicsStepView* self) __CPROVER_requires(VIEW_
 bool g_sec_cleared;          /* ghost: the slot's secondaries span was reset to empty */
 void PSV_secondaries_clear(PhysicsStepView* self) __CPROVER_requires(VIEW_OK(self)) __CPROVER_assigns(g_sec_cleared) __CPROVER_ensures(g_sec_cleared == 1);   /* step.secondaries({}) */
 void PSV_element_clear(PhysicsStepView* self) __CPROVER_requires(VIEW_OK(self)) __CPROVER_assigns() __CPROVER_ensures(1);       /* outside this model */
-static bool PHV_has_interaction_mfp(PhysicsTrackView const* self) { return self->t->interaction_mfp > 0; }   /* body: state().interaction_mfp > 0 */
-/* interaction_mfp(mfp): own EXPECT mfp > 0 */
+static bool PHV_has_interaction_mfp(PhysicsTrackView const* self) { return self->t->interaction_mfp > 0; }   /* state().interaction_mfp > 0   [enforced: c05_phv_has_interaction_mfp] */
+/* interaction_mfp(mfp): own EXPECT mfp > 0   [enforced: c05_phv_interaction_mfp_set] */
 void PHV_interaction_mfp_set(PhysicsTrackView* self, real_type mfp)
 __CPROVER_requires(VIEW_OK(self) && mfp > 0)
 __CPROVER_assigns(self->t->interaction_mfp)
